@@ -63,6 +63,14 @@ CHECKS = {
    "differential testing of rapid-generated programs (dynamic dispatch, generics, unreferenced look-alike declarations) and the hand-written corpus (linknames, cross-package dispatch, side-effecting initialisers): normal link versus a link with every declaration forced alive, both run scenario by scenario under Node",
    "the all-alive link is the oracle (it is obtained by marking every declaration alive before the same program writer runs); Node is trusted",
    "property-based differential (metamorphic) testing: dead-code elimination on/off (rapid)"),
+ "C04": ("exploration",
+   "rapid-generated programs of 3-5 packages around generic code (transitive and recursive instantiation, types declared inside generic functions, instances crossing packages in both directions, per-instance arithmetic width, dispatch through constraints, identity probes) compared line by line with the native run; single-package generics are also exercised by the progen-based checks",
+   "trusts the native Go toolchain as reference; the generator draws type arguments from a fixed pool of 19 types",
+   "property-based differential testing of generated generic programs (rapid) with native Go as oracle"),
+ "C17": ("exploration",
+   "rapid-generated multi-package generic programs, progen bundles and the corpus built repeatedly (fresh in-process sessions, plain/minified/with source map, fresh compiler processes, permuted file lists on the command line, after another program in the same session); sha256 of JavaScript and source map must agree within each (program, options) class",
+   "ordering races are sampled (n builds per class, reported); the session-history sub-check has an open known finding",
+   "property-based metamorphic testing: repeated builds must be byte-identical (rapid-generated programs and file-order permutations)"),
 }
 PENDING_REASON = "check not built yet in this session (work in progress; see DESIGN.md §8 for the order)"
 props=[json.loads(l)['id'] for l in open('/verif/properties.jsonl')]
